@@ -15,6 +15,7 @@ package main
 import (
 	"bytes"
 	"encoding/json"
+	"flag"
 	"fmt"
 	"net/http"
 	"net/http/httptest"
@@ -34,6 +35,13 @@ import (
 
 var run *hx.Run
 var router *gin.Engine
+
+// -mode inis: the pass that configures package api the way a deployment does (viper + api.InitConfig() on an ini
+// file), one child process per ini file because the configuration is global; -mode child is such a child.
+var modeFlag = flag.String("mode", "tokens", "tokens | inis | child")
+var iniFlag = flag.String("ini", "", "child: the ini spec (a shipped file's relative path, `none`, or inline:k=hex;…)")
+var childOutFlag = flag.String("childout", "", "child: where the recorded cases go (JSON lines)")
+var childSink *json.Encoder
 var skipped int
 var env *bbsenv.Env
 
@@ -147,7 +155,7 @@ type outcome struct {
 
 func (o *outcome) fail(key, what string) { o.fails = append(o.fails, [2]string{key, what}) }
 
-func flag(s string) bool { return s == "1" }
+func isOne(s string) bool { return s == "1" }
 
 func errName(err error) string {
 	switch err {
@@ -241,7 +249,7 @@ func execCase(c tcase, now int64) (o outcome) {
 		case "vjwt":
 			o.line = "vjwt " + tokw + " " + c.a[1]
 			o.impl = hx.CallSync(func() string {
-				u, e, cl, er := api.VerifyJwt(raw, flag(c.a[1]))
+				u, e, cl, er := api.VerifyJwt(raw, isOne(c.a[1]))
 				user, exp, cli, err = string(u), e, cl, er
 				if er != nil {
 					return errName(er)
@@ -289,7 +297,7 @@ func execCase(c tcase, now int64) (o outcome) {
 			ctx = unhx0(c.a[1])
 		}
 		if c.op == "vjwt" {
-			checkExp = flag(c.a[1])
+			checkExp = isOne(c.a[1])
 		}
 		judgeVerify(&o, c.op, kind, raw, v, b, err == nil, user, eml, ctx, checkExp, now)
 
@@ -312,7 +320,7 @@ func execCase(c tcase, now int64) (o outcome) {
 		}
 		var res httpRes
 		o.impl = hx.CallSync(func() string {
-			res = post(path, hv, has, flag(c.a[0]), map[string]string{})
+			res = post(path, hv, has, isOne(c.a[0]), map[string]string{})
 			if res.code != 200 {
 				return res.errLine()
 			}
@@ -333,7 +341,7 @@ func execCase(c tcase, now int64) (o outcome) {
 				// handler called as guest = the token was refused
 				judgeVerify(&o, c.op, 'a', second, v, b, user != api.GUEST, user, "", "", true, now)
 			}
-		} else if flag(c.a[0]) {
+		} else if isOne(c.a[0]) {
 			o.fail("auth:rejected-valid", "the login-required wrapper answered "+res.errLine()+" instead of calling the handler (as the user or as guest)")
 		}
 
@@ -503,11 +511,26 @@ func runCase(c tcase) {
 			skipped++
 			return
 		}
-		i := run.Op(o.line, o.impl, o.label, o.nontrivial)
-		for _, f := range o.fails {
-			run.Fail(i, f[0], f[1])
-		}
+		emit(o)
 		return
+	}
+}
+
+type recorded struct {
+	Line, Impl, Label string
+	Nontrivial        bool
+	Fails             [][2]string
+}
+
+// emit records a finished case: in a child process as a JSON line for the parent, otherwise in the run.
+func emit(o outcome) {
+	if childSink != nil {
+		_ = childSink.Encode(recorded{o.line, o.impl, o.label, o.nontrivial, o.fails})
+		return
+	}
+	i := run.Op(o.line, o.impl, o.label, o.nontrivial)
+	for _, f := range o.fails {
+		run.Fail(i, f[0], f[1])
 	}
 }
 
@@ -563,8 +586,29 @@ func main() {
 	}
 	logrus.SetOutput(io.Discard)
 
+	if *modeFlag == "child" {
+		childMain()
+		return
+	}
 	if run.Replay != "" {
-		for _, l := range hx.ReplayOps(run.Replay) {
+		// lines after a `useini <spec>` line run in a child process configured with that ini file
+		all := hx.ReplayOps(run.Replay)
+		var plain []string
+		for i := 0; i < len(all); {
+			w := strings.Fields(all[i])
+			if len(w) == 2 && w[0] == "useini" {
+				j := i + 1
+				for j < len(all) && !strings.HasPrefix(all[j], "useini ") {
+					j++
+				}
+				runChild(w[1], all[i+1:j])
+				i = j
+				continue
+			}
+			plain = append(plain, all[i])
+			i++
+		}
+		for _, l := range plain {
 			c, ok := parseOp(l)
 			if !ok {
 				// a line the harness cannot rebuild is passed to the model as it is
@@ -580,6 +624,11 @@ func main() {
 				runCase(c)
 			}()
 		}
+		run.Finish()
+		return
+	}
+	if *modeFlag == "inis" {
+		generateInis()
 		run.Finish()
 		return
 	}
